@@ -222,6 +222,9 @@ def replay(data):
     nout = r['nout']
     ts = [inp[f'ts{i}'] for i in range(nout)]
     dt = inp['dt']
+    if dt <= 0 or any(a >= b for a, b in zip(ts[:-1], ts[1:])):
+        print('replay C12: counterexample violates the preconditions (not a reproduction)')
+        return False
 
     class SDE(torch.nn.Module):
         noise_type = 'diagonal'; sde_type = 'ito'
